@@ -59,6 +59,23 @@ def _stale_read(pair, history=()):
         shutil.rmtree(root, ignore_errors=True)
 
 
+def _yaml_pair(pair):
+    x1, x2 = pair
+    key_check.module()
+    root = scratch(f'yamlpair-{os.getpid()}')
+    try:
+        base = root / 'data'
+        rng = random.Random(0)
+        c1, _ = key_check.realise('yaml', x1, 5, 1, base, root / 'w1', rng, global_vars={})
+        v1 = c1['a'].value
+        c2, _ = key_check.realise('yaml', x2, 5, 1, base, root / 'w2', rng, global_vars={})
+        same = str(c1['a'].data_path) == str(c2['a'].data_path)
+        v2 = c2['a'].value
+        return {'same_path': same, 'stale': same and v2 == v1}
+    finally:
+        shutil.rmtree(root, ignore_errors=True)
+
+
 def _swap(x):
     """two mounts of one task feeding one consumer: exchanging which mount carries which computation is another
     computation of the consumer (input WIRINGS that differ)"""
@@ -144,6 +161,17 @@ def run(ctx):
                 ctx.report('wiring-one-input', f'a task reading p1::a and p2::a has one location ({k[which]}) for x={table[k[which]]!r} '
                                                f'and x={x!r} behind {"p1" if which == "cmp12" else "p2"} (the other mount unchanged)')
             table[k[which]] = x
+    # mappings whose keys are not strings (a YAML config): outside the enumerated JSON-like universe, judged by the
+    # property alone - values that differ only in the TYPE of a key are different values
+    for x1, x2 in (({1: 'x'}, {'1': 'x'}), ({1: 'a', 2: 'b'}, {'1': 'a', '2': 'b'}), ({True: 1}, {'True': 1}), ({1.5: 0}, {'1.5': 0})):
+        k = run_forked(_yaml_pair, (x1, x2))
+        ctx.traces += 1
+        ctx.case(json.dumps(['yaml-keys', repr(x1), repr(x2)]), nontrivial=True)
+        if k['same_path']:
+            ctx.report('collision:mapping-key-type', f'distinct parameter values {x1!r} and {x2!r} (a YAML mapping with non-string '
+                                                     f'keys and its string-keyed twin) get the same storage location'
+                                                     + ('; a chain configured with the second returns the result computed for the first'
+                                                        if k['stale'] else ''))
     # downstream: a different upstream key must move every downstream key (chain hash), on the real code
     for t in ('b', 'c', 'd', 'e', 'm', 'n'):
         down = defaultdict(set)
